@@ -6,14 +6,6 @@ CONSTANTS
   BufSizes = {2, 3}
   MCVariants = {"asbuilt"}
   MCTargets = {"newdir", "existing", "device", "rodir", "rofile", "parentfile", "isdir"}
-  DocOps = {}
-  MdOps = {}
-  Vias = {}
-  GenTargets = {}
-  Plans = {}
-  SweepPoints = 0
-  SweepEdge = 0
-  MaxDoc = 0
-  MaxSaves = 0
+  GroupNames = {}
 INVARIANTS Inv_C05_AsBuilt
 CHECK_DEADLOCK FALSE
